@@ -327,15 +327,15 @@ def pattern_f(ctx, flavour, prog, shard_argv, module, cfg, rowvar="ROWS", tlc_ti
             m = re.match(r'<<"CENSUS", (\d+), (\d+)>>', ln)
             if m:
                 total += int(m.group(1)); distinct += int(m.group(2))
-        ks = [int(x) for x in re.findall(r"is violated by the initial state:\s*\n(?:/\\ )?k = (\d+)", r.out)]
+        ks = [(inv, int(x)) for inv, x in re.findall(r"Invariant (\w+) is violated by the initial state:\s*\n(?:/\\ )?k = (\d+)", r.out)]
         if ks:
             rows = open(recs[i][0]).read().splitlines()
-            for k in ks:
+            for inv, k in ks:
                 try:
                     row = json.loads(rows[k - 1])
                 except Exception:
                     row = {"raw": rows[k - 1][:500]}
-                bad.append({"clause": "RowOK", "what": "row disagrees with the TLA+ reference", "row": row, "sites": []})
+                bad.append({"clause": inv, "what": "row violates %s of the TLA+ judge" % inv, "row": row, "sites": []})
         elif r.violated:
             bad.append({"clause": r.violated[0], "what": r.out[-800:], "sites": []})
     ctx.log("TLC judged %d rows (%d distinct) in %.1fs, %d bad" % (total, distinct, time.time() - t, len(bad)))
